@@ -9,6 +9,24 @@ TECH = ("bounded symbolic execution of the real Python functions on z3-backed va
         "counterexamples replayed on the unmodified code")
 
 CLAIMS = {
+    'C01': dict(
+        text=("The real ValueIteration.plan_on (vectorised and dict versions) and PolicyIteration.plan_on are executed on "
+              "symbolic rewards / residual threshold / placeholder over a menu of MDP skeletons (stochastic branching, cycles, "
+              "state-dependent action sets, explicit and implicit absorbing states, multi-state starts, int/str/tuple labels), "
+              "K sweeps unrolled. On every converged path z3 proves: reported action values are the one-step look-ahead "
+              "(independently written masked model) of the reported state values, the Bellman residual is within the "
+              "configured threshold (=> |V-V*| <= eps/(1-g) resp. g*eps/(1-g) by the contraction lemma), absorbing states 0, "
+              "placeholder at states that cannot reach a goal (g=1), unavailable actions -inf / probability 0, initial value = "
+              "expectation, policy rows uniform over exactly the isclose-maximisers of the planner's action values; on the "
+              "smaller skeletons the bound and the optimality of the policy's exactly evaluated return are also proved "
+              "directly against a fresh V*/Q* fixed point. One-sweep inductive step from an arbitrary value vector covers any "
+              "number of sweeps of the vectorised kernel. Holds for all rewards/thresholds inside the bound."),
+        note=("bounds: skeleton menu (1-3 states, 4 for one goal-reaching skeleton in thorough; 1-2 actions), discount in "
+              "{1/2, 9/10, 1}, unrolled sweeps K (3-5 quick, up to 8 thorough), PI rounds |A|^S+2; paths that hit the cap "
+              "are counted as cut. Transition probabilities are concrete menu rationals. For the dense 3-state skeletons the "
+              "distance to V* is obtained from the solver-proved residual via the contraction lemma (a textbook fact, not "
+              "re-proved by the solver). Floats as reals (a float within 1e-13 of a small rational stands for it)."),
+        ref='DESIGN.md section 4 C01'),
     'C11': dict(
         text=("For every support size within the bound and every distribution kind, the probability-calculus laws are "
               "proved for ALL probability/weight/score values at once (symbolic reals, zero entries included), by running "
